@@ -1554,3 +1554,134 @@ K("zzk-mirror-constant-comparisons", _mirror_constant_comparisons,
   note="constants on the left of comparisons")
 K("zzk-condition-temporaries", _condition_temps,
   note="if tests through temporaries, pass before returns")
+
+
+def _expand_augassign(texts):
+    """`x += e` -> `x = x + e` for name and attribute targets."""
+    import ast as _ast
+    import copy as _copy
+
+    class T(_ast.NodeTransformer):
+        def visit_AugAssign(self, node):
+            self.generic_visit(node)
+            if isinstance(node.target, (_ast.Name, _ast.Attribute)):
+                load = _copy.deepcopy(node.target)
+                for n in _ast.walk(load):
+                    if hasattr(n, "ctx"):
+                        n.ctx = _ast.Load()
+                return _ast.Assign(targets=[node.target], value=_ast.BinOp(
+                    left=load, op=node.op, right=node.value))
+            return node
+
+    def tr(name, tree):
+        return T().visit(tree)
+    return _each_module(texts, tr)
+
+
+def _if_assign_to_ifexp(texts):
+    """`if c: x = a else: x = b` -> `x = a if c else b`;
+    `if c: return a` + `return b` -> `return a if c else b`."""
+    import ast as _ast
+
+    def same_target(a, b):
+        return isinstance(a, _ast.Assign) and isinstance(b, _ast.Assign) \
+            and len(a.targets) == 1 and len(b.targets) == 1 and \
+            _ast.dump(a.targets[0]) == _ast.dump(b.targets[0])
+
+    def fix(body):
+        out = []
+        i = 0
+        while i < len(body):
+            st = body[i]
+            for fld in ("body", "orelse", "finalbody"):
+                sub = getattr(st, fld, None)
+                if isinstance(sub, list) and sub and isinstance(
+                        sub[0], _ast.stmt) and not isinstance(
+                            st, (_ast.FunctionDef, _ast.ClassDef)):
+                    setattr(st, fld, fix(sub))
+            if isinstance(st, _ast.Try):
+                for h in st.handlers:
+                    h.body = fix(h.body)
+            if isinstance(st, _ast.If) and len(st.body) == 1 and \
+                    len(st.orelse) == 1 and same_target(st.body[0],
+                                                        st.orelse[0]):
+                out.append(_ast.Assign(
+                    targets=st.body[0].targets,
+                    value=_ast.IfExp(test=st.test, body=st.body[0].value,
+                                     orelse=st.orelse[0].value)))
+                i += 1
+                continue
+            nxt = body[i + 1] if i + 1 < len(body) else None
+            if isinstance(st, _ast.If) and not st.orelse and \
+                    len(st.body) == 1 and isinstance(
+                        st.body[0], _ast.Return) and \
+                    st.body[0].value is not None and isinstance(
+                        nxt, _ast.Return) and nxt.value is not None:
+                out.append(_ast.Return(value=_ast.IfExp(
+                    test=st.test, body=st.body[0].value, orelse=nxt.value)))
+                i += 2
+                continue
+            out.append(st)
+            i += 1
+        return out
+
+    def tr(name, tree):
+        for n in _ast.walk(tree):
+            if isinstance(n, _ast.FunctionDef):
+                n.body = fix(n.body)
+        return tree
+    return _each_module(texts, tr)
+
+
+def _de_morgan_and_split(texts):
+    """`not (a or b)` -> `not a and not b`, `a and b` in an if test with no
+    else -> nested ifs, `a <= x <= b` -> `a <= x and x <= b`."""
+    import ast as _ast
+    import copy as _copy
+
+    class T(_ast.NodeTransformer):
+        def visit_UnaryOp(self, node):
+            self.generic_visit(node)
+            if isinstance(node.op, _ast.Not) and isinstance(
+                    node.operand, _ast.BoolOp):
+                op = _ast.And() if isinstance(node.operand.op, _ast.Or) \
+                    else _ast.Or()
+                return _ast.BoolOp(op=op, values=[
+                    _ast.UnaryOp(op=_ast.Not(), operand=v)
+                    for v in node.operand.values])
+            return node
+
+        def visit_Compare(self, node):
+            self.generic_visit(node)
+            if len(node.ops) == 2 and isinstance(
+                    node.comparators[0], (_ast.Name, _ast.Attribute,
+                                          _ast.Constant)):
+                mid = node.comparators[0]
+                return _ast.BoolOp(op=_ast.And(), values=[
+                    _ast.Compare(left=node.left, ops=[node.ops[0]],
+                                 comparators=[mid]),
+                    _ast.Compare(left=_copy.deepcopy(mid), ops=[node.ops[1]],
+                                 comparators=[node.comparators[1]])])
+            return node
+
+        def visit_If(self, node):
+            self.generic_visit(node)
+            if not node.orelse and isinstance(node.test, _ast.BoolOp) and \
+                    isinstance(node.test.op, _ast.And) and len(
+                        node.test.values) == 2:
+                a, b = node.test.values
+                return _ast.If(test=a, body=[_ast.If(
+                    test=b, body=node.body, orelse=[])], orelse=[])
+            return node
+
+    def tr(name, tree):
+        return T().visit(tree)
+    return _each_module(texts, tr)
+
+
+K("zzk-expand-augmented-assignments", _expand_augassign,
+  note="x += e written as x = x + e everywhere")
+K("zzk-if-else-to-conditional-expressions", _if_assign_to_ifexp,
+  note="two-armed assignments and guard returns as conditional expressions")
+K("zzk-de-morgan-nested-ifs", _de_morgan_and_split,
+  note="De Morgan, `if a and b` as nested ifs, chained comparisons split")
